@@ -840,11 +840,15 @@ def html_namespace_tests(ctx):
     a node silently, so the wrapper-level parent can be stale -- the DOM back-end's removeChild tests the real parent first."""
     r = ctx.r
     n = 0
-    for f in ctx.repo.module(PARSER_REL).all_functions:
+    funcs = [(rel_, f) for rel_ in (PARSER_REL, "treebuilders/base.py", "_tokenizer.py") for f in ctx.repo.module(rel_).all_functions]
+    for rel_, f in funcs:
         ns_locals = {s.targets[0].id for s in walk_no_nested(f.node) if isinstance(s, ast.Assign) and isinstance(s.targets[0], ast.Name)
                      and isinstance(s.value, ast.IfExp) is False and "namespace" in norm(s.value) and not isinstance(s.value, ast.Call)}
         ordinal = 0
-        for c in sorted((x for x in walk_no_nested(f.node) if isinstance(x, ast.Compare)), key=lambda x: (x.lineno, x.col_offset)):
+        nested_defs = [d for d in ast.walk(f.node) if isinstance(d, (ast.FunctionDef, ast.AsyncFunctionDef)) and d is not f.node]
+        in_nested = {id(y) for d in nested_defs for y in ast.walk(d)}
+        # comparisons anywhere in the function, generator expressions and lambdas included
+        for c in sorted((x for x in ast.walk(f.node) if isinstance(x, ast.Compare) and id(x) not in in_nested), key=lambda x: (x.lineno, x.col_offset)):
             if not (isinstance(c, ast.Compare) and len(c.ops) == 1 and isinstance(c.ops[0], (ast.Eq, ast.NotEq))):
                 continue
             sides = [c.left, c.comparators[0]]
@@ -857,10 +861,10 @@ def html_namespace_tests(ctx):
             ordinal += 1
             if t.endswith("defaultNamespace"):
                 n += 1
-                r.ok("C03.14", "html-test::%s#%d" % (f.qual, ordinal), "%s:%d" % (PARSER_REL, c.lineno), detail={"compares_with": t})
+                r.ok("C03.14", "html-test::%s#%d" % (f.qual, ordinal), "%s:%d" % (rel_, c.lineno), detail={"compares_with": t})
             elif t in ("namespaces['html']",) or (isinstance(other, ast.Constant) and other.value == "http://www.w3.org/1999/xhtml"):
                 n += 1
-                r.bad("C03.14", "html-test::%s#%d" % (f.qual, ordinal), "%s:%d" % (PARSER_REL, c.lineno),
+                r.bad("C03.14", "html-test::%s#%d" % (f.qual, ordinal), "%s:%d" % (rel_, c.lineno),
                       "%s decides whether a node is an HTML element by comparing its namespace with the constant XHTML namespace; with "
                       "namespaceHTMLElements=False HTML elements carry the tree's defaultNamespace (None), so the test never matches "
                       "(<svg></br> raises IndexError, an end tag inside foreign content in a table cell never terminates)" % f.qual,
